@@ -154,15 +154,4 @@ theorem header_roundtrip (h : Header) : deHeader (serHeader h) = some h := by
 theorem pathAndQuery_roundtrip (p : PathAndQuery) : dePathAndQuery (serPathAndQuery p) = some p := by
   simp [dePathAndQuery, serPathAndQuery, reqField, optField, find, keyEq]
 
-theorem request_roundtrip (P : Codec) (q : Request) (h : q.WF P) :
-    deRequest P (serRequest q) = some q := by
-  have h1 := pathAndQuery_roundtrip q.path_and_query_skipped
-  have h2 : deVec deHeader (serVec serHeader q.headers) = some q.headers :=
-    deVec_serVec _ _ _ (fun x _ => header_roundtrip x)
-  have h3 : deOption (deAtom P.parseIp) (serOption .str q.remote_addr) = some q.remote_addr :=
-    deOption_serOption _ _ (by intro a h; cases h) _ (fun ip hip => by simpa [deAtom] using h.1 ip hip)
-  have h4 : deOption (deAtom P.parseDt) (serOption .str q.created_at) = some q.created_at :=
-    deOption_serOption _ _ (by intro a h; cases h) _ (fun dt hdt => by simpa [deAtom] using h.2 dt hdt)
-  simp [deRequest, serRequest, reqField, optField, find, keyEq, h1, h2, h3, h4]
-
 end Rio.Json
